@@ -48,8 +48,9 @@ def run(chk):
         if np.cross(V[2] - V[1], V[0] - V[1])[2] == 0:
             continue
         size = float(np.max(P.max(0) - P.min(0)))
-        for r in (0.0, float(size * 2.0 ** int(rng.integers(-6, 4)))):
-            if r == 0.0:
+        # radius 0: the plain ConvexPolygon, and also the spheropolygon with rounding radius exactly 0 (a legitimate value)
+        for r, sphero in ((0.0, False), (0.0, True), (float(size * 2.0 ** int(rng.integers(-6, 4))), True)):
+            if not sphero:
                 st, sh = C.excname(coxeter.shapes.ConvexPolygon, V)
             else:
                 st, sh = C.excname(coxeter.shapes.ConvexSpheropolygon, V, r)
